@@ -252,41 +252,81 @@ Definition bools2 := [false; true].
 Definition families := [FParafac; FNNParafac; FNNParafacHals; FConstrained; FTucker; FPartialTucker; FNNTucker; FNNTuckerHals;
    FRobustPca; FProx; FHalsNnls; FFista; FActiveSet; FAdmm; FSvd; FCpNormalize; FPure; FRandom; FSampleKR; FIndexed; FPermute; FFlipSign;
    FRandParafac; FParafac2; FSvdChain; FTrAls; FTrAlsSampled; FTTCross; FCmtf; FPower; FCpReg; FTuckerReg; FPlsr; FMoment; FMetric; FCompress].
-(* all option combinations of all families except the documented float64 one (FLeverage) *)
+(* Which options a family's skeleton looks at.  norm_cfg clears every option the family ignores; skeleton_norm proves (by
+   computation, family by family, with the option values left symbolic) that the skeleton does not change - so the option space
+   that has to be enumerated is the normalised one, and the theorems below hold for EVERY cfg of every listed family. *)
 Definition uses_prox (f : family) : bool := match f with FProx | FAdmm | FConstrained => true | _ => false end.
+Definition rel_init (f : family) : bool := match f with FParafac | FNNParafac | FNNParafacHals | FConstrained | FTucker | FPartialTucker
+  | FNNTucker | FNNTuckerHals | FRandParafac | FParafac2 => true | _ => false end.
+Definition rel_mask (f : family) : bool := match f with FParafac | FNNParafac | FNNParafacHals | FTucker | FPartialTucker | FNNTucker
+  | FNNTuckerHals | FRobustPca | FSvd => true | _ => false end.
+Definition rel_errors (f : family) : bool := match f with FParafac | FNNParafac | FNNParafacHals | FConstrained | FTucker | FPartialTucker
+  | FNNTucker | FNNTuckerHals | FRandParafac | FParafac2 => true | _ => false end.
+Definition rel_normalize (f : family) : bool := match f with FParafac | FNNParafac | FNNParafacHals | FNNTuckerHals | FParafac2 | FRandom => true | _ => false end.
+Definition rel_ls (f : family) : bool := match f with FParafac | FParafac2 => true | _ => false end.
+Definition rel_sp (f : family) : bool := match f with FParafac => true | _ => false end.
+Definition rel_l2 (f : family) : bool := match f with FParafac => true | _ => false end.
+Definition rel_warm (f : family) : bool := match f with FHalsNnls | FFista | FActiveSet | FRandom => true | _ => false end.
+Definition rel_fb (f : family) : bool := match f with FActiveSet => true | _ => false end.
+Definition rel_alt (f : family) : bool := match f with FNNTuckerHals | FSvd | FParafac2 | FRandom => true | _ => false end.
+
+Definition norm_cfg (c : cfg) : cfg :=
+  let f := c_fam c in
+  mkcfg f (if rel_init f then c_init c else IRandom) (rel_mask f && c_mask c) (rel_errors f && c_errors c)
+        (rel_normalize f && c_normalize c) (rel_ls f && c_linesearch c) (rel_sp f && c_sparsity c) (rel_l2 f && c_l2reg c)
+        (if uses_prox f then c_prox c else PNone) (rel_warm f && c_warm c) (rel_fb f && c_fallback c) (rel_alt f && c_alt c).
+
+Lemma skeleton_v_norm mc c : skeleton_v mc c = skeleton_v mc (norm_cfg c).
+Proof. destruct c as [f i m er nz ls sp l2 k w fb alt]. destruct f; reflexivity. Qed.
+Lemma skeleton_norm c : skeleton c = skeleton (norm_cfg c).
+Proof. apply skeleton_v_norm. Qed.
+
+Definition optb (r : bool) : list bool := if r then bools2 else [false].
 Definition all_cfgs : list cfg :=
   flat_map (fun f => flat_map (fun i => flat_map (fun k =>
   flat_map (fun m => flat_map (fun er => flat_map (fun nz => flat_map (fun ls => flat_map (fun sp =>
   flat_map (fun l2 => flat_map (fun w => flat_map (fun fb => map (fun alt =>
-     mkcfg f i m er nz ls sp l2 k w fb alt) bools2) bools2) bools2) bools2) bools2) bools2) bools2) bools2) bools2)
-  (if uses_prox f then proxes else [PNone])) inits) families.
+     mkcfg f i m er nz ls sp l2 k w fb alt) (optb (rel_alt f))) (optb (rel_fb f))) (optb (rel_warm f))) (optb (rel_l2 f))) (optb (rel_sp f)))
+     (optb (rel_ls f))) (optb (rel_normalize f))) (optb (rel_errors f))) (optb (rel_mask f)))
+  (if uses_prox f then proxes else [PNone])) (if rel_init f then inits else [IRandom])) families.
 Lemma In_bools2 b : In b bools2. Proof. destruct b; simpl; tauto. Qed.
+Lemma In_optb r b : In (r && b) (optb r). Proof. destruct r, b; simpl; tauto. Qed.
 Lemma In_inits i : In i inits. Proof. destruct i; simpl; tauto. Qed.
-(* the enumeration is complete: every configuration of a listed family, with a proximal operator only where the family has one *)
-Definition valid_cfg (c : cfg) : Prop :=
-  In (c_fam c) families /\ In (c_prox c) (if uses_prox (c_fam c) then proxes else [PNone]).
-Lemma all_cfgs_complete c : valid_cfg c -> In c all_cfgs.
+Lemma In_proxes k : In k proxes. Proof. destruct k; simpl; tauto. Qed.
+Lemma In_init_opt (r : bool) i : In (if r then i else IRandom) (if r then inits else [IRandom]).
+Proof. destruct r; [apply In_inits | simpl; tauto]. Qed.
+Lemma In_prox_opt (r : bool) k : In (if r then k else PNone) (if r then proxes else [PNone]).
+Proof. destruct r; [apply In_proxes | simpl; tauto]. Qed.
+(* every configuration of a listed family (all families except the documented float64 one, FLeverage) *)
+Definition valid_cfg (c : cfg) : Prop := In (c_fam c) families.
+Lemma valid_cfg_iff c : valid_cfg c <-> c_fam c <> FLeverage.
 Proof.
-  destruct c as [f i m er nz ls sp l2 k w fb alt]. unfold valid_cfg. cbn [c_fam c_prox]. intros [Hf Hk].
-  unfold all_cfgs.
+  unfold valid_cfg. split.
+  - intros H E. rewrite E in H. simpl in H. repeat (destruct H as [H|H]; [discriminate H|]). exact H.
+  - intros H. destruct (c_fam c); simpl; try tauto; exfalso; apply H; reflexivity.
+Qed.
+Lemma all_cfgs_complete c : valid_cfg c -> In (norm_cfg c) all_cfgs.
+Proof.
+  destruct c as [f i m er nz ls sp l2 k w fb alt]. unfold valid_cfg, norm_cfg. cbn [c_fam c_init c_mask c_errors c_normalize c_linesearch c_sparsity c_l2reg c_prox c_warm c_fallback c_alt].
+  intros Hf. unfold all_cfgs.
   apply in_flat_map. exists f. split; [exact Hf|].
-  apply in_flat_map. exists i. split; [apply In_inits|].
-  apply in_flat_map. exists k. split; [exact Hk|].
-  apply in_flat_map. exists m. split; [apply In_bools2|].
-  apply in_flat_map. exists er. split; [apply In_bools2|].
-  apply in_flat_map. exists nz. split; [apply In_bools2|].
-  apply in_flat_map. exists ls. split; [apply In_bools2|].
-  apply in_flat_map. exists sp. split; [apply In_bools2|].
-  apply in_flat_map. exists l2. split; [apply In_bools2|].
-  apply in_flat_map. exists w. split; [apply In_bools2|].
-  apply in_flat_map. exists fb. split; [apply In_bools2|].
-  apply in_map. apply In_bools2.
+  apply in_flat_map. eexists. split; [apply In_init_opt|].
+  apply in_flat_map. eexists. split; [apply In_prox_opt|].
+  apply in_flat_map. eexists. split; [apply In_optb|].
+  apply in_flat_map. eexists. split; [apply In_optb|].
+  apply in_flat_map. eexists. split; [apply In_optb|].
+  apply in_flat_map. eexists. split; [apply In_optb|].
+  apply in_flat_map. eexists. split; [apply In_optb|].
+  apply in_flat_map. eexists. split; [apply In_optb|].
+  apply in_flat_map. eexists. split; [apply In_optb|].
+  apply in_flat_map. eexists. split; [apply In_optb|].
+  apply in_map. apply In_optb.
 Qed.
 
 (* real outputs only: strip integer index outputs *)
 Definition float_outs (p : prog) : prog := mkprog (p_init p) (p_body p) (filter float_out (p_outs p)).
 
-(* a mask in the data's dtype (or no mask): every configuration of every family passes the check, in all four contexts *)
+(* a mask in the data's dtype (or no mask): every normalised configuration of every family passes the check, in all four contexts *)
 Lemma all_skeletons_ok_b :
   forallb (fun t => forallb (fun c => prog_ok (mkenv t t) (float_outs (skeleton c))) all_cfgs) ctxs = true.
 Proof. vm_compute. reflexivity. Qed.
@@ -300,23 +340,27 @@ Theorem skeletons_preserve_precision t c n s e :
   In t ctxs -> valid_cfg c -> In (s, e) (p_outs (skeleton c)) -> float_out (s, e) = true ->
   strongP t (eval (mkenv t t) (run (mkenv t t) (skeleton c) n) e) = true.
 Proof.
-  intros Ht Hc Hin Hf. apply all_cfgs_complete in Hc.
+  intros Ht Hc Hin Hf. apply all_cfgs_complete in Hc. rewrite skeleton_norm in Hin |- *.
   pose proof all_skeletons_ok_b as H. rewrite forallb_forall in H. specialize (H t Ht).
-  rewrite forallb_forall in H. specialize (H c Hc).
-  rewrite <- run_float_outs. apply (prog_precision_preserved (mkenv t t) (float_outs (skeleton c)) Ht H n s e).
+  rewrite forallb_forall in H. specialize (H _ Hc).
+  rewrite <- run_float_outs. apply (prog_precision_preserved (mkenv t t) (float_outs (skeleton (norm_cfg c))) Ht H n s e).
   apply float_outs_In; assumption.
 Qed.
 
 (* ---- every skeleton of the current code is mask-guarded, hence clean for EVERY mask dtype *)
 Lemma skeletons_guarded_b : forallb (fun c => prog_guarded (skeleton c)) all_cfgs = true.
 Proof. vm_compute. reflexivity. Qed.
+Lemma skeleton_guarded c : valid_cfg c -> prog_guarded (skeleton c) = true.
+Proof.
+  intros Hc. rewrite skeleton_norm. pose proof skeletons_guarded_b as G. rewrite forallb_forall in G.
+  exact (G _ (all_cfgs_complete c Hc)).
+Qed.
 
 Theorem skeletons_any_mask t m c n s e :
   In t ctxs -> valid_cfg c -> In (s, e) (p_outs (skeleton c)) -> float_out (s, e) = true ->
   strongP t (eval (mkenv t m) (run (mkenv t m) (skeleton c) n) e) = true.
 Proof.
-  intros Ht Hc Hin Hf. pose proof (all_cfgs_complete c Hc) as Hc'.
-  pose proof skeletons_guarded_b as G. rewrite forallb_forall in G. specialize (G c Hc').
+  intros Ht Hc Hin Hf. pose proof (skeleton_guarded c Hc) as G.
   rewrite (run_mask_irrelevant t m t _ n G).
   assert (Ge : mask_guarded e = true).
   { unfold prog_guarded in G. apply andb_prop in G. destruct G as [_ Go]. rewrite forallb_forall in Go. exact (Go (s, e) Hin). }
@@ -380,7 +424,7 @@ Proof.
   intros n.
   assert (H : eval (mkenv F32 F32) (run (mkenv F32 F32) (skeleton active_fallback) n) X_ = F32).
   { apply (skeletons_preserve_context F32 F32 active_fallback n "out0" X_); try reflexivity.
-    - split; simpl; tauto.
+    - unfold valid_cfg. simpl. tauto.
     - simpl. tauto. }
   unfold out_of, out_of_prog, out_dtypes.
   change (p_outs (skeleton active_fallback)) with [("out0", X_)].
